@@ -18,6 +18,14 @@ func extraEngines(args []string) bool {
 		scatterEngine()
 	case "gob":
 		gobEngine()
+	case "daemon":
+		daemonEngine(args[1])
+	case "wire":
+		// dh wire <port> <repo>
+		wireEngine(args[1], args[2])
+	case "tls":
+		// dh tls <workdir> <repo>
+		tlsEngine(args[1], args[2])
 	case "dkg":
 		dkgEngine(args[1])
 	case "imp":
